@@ -450,3 +450,8 @@ func fieldFuncOf(v ssa.Value) *ssa.Function {
 	}
 	return fieldFunc[nt.Obj().Pkg().Path()+"."+nt.Obj().Name()+"\x00"+st.Field(idx).Name()]
 }
+
+// IsNewNamedType: the named type (full "pkgpath.Name") belongs to the module and is not in the recorded tree.
+func IsNewNamedType(full string) bool {
+	return len(pinnedTypes) > 0 && strings.HasPrefix(full, ModPath) && !pinnedTypes[full]
+}
